@@ -563,6 +563,13 @@ class Algebra(Suite):
             want = {(s, o) for s, o in want if s is not None and o is not None and not s.startswith('"')}
             if {(s.n3(), o.n3()) for s, p_, o in cg} != want:
                 return f"construct: CONSTRUCT over {render(q)!r} differs from the template instantiated over the solutions"
+        if case["q"] % 3 == 0:
+            # a template blank node is fresh per solution OCCURRENCE: n equal solutions give n sub-graphs
+            cg = g.query(PFX + "CONSTRUCT { [] :made ?y } WHERE " + render(q)).graph
+            want_n = sum(n for m, n in exp.items() if "y" in dict(m))
+            if len(cg) != want_n:
+                return (f"construct-bnodes: CONSTRUCT {{ [] :made ?y }} over {render(q)!r} on graph #{case['g']} gives "
+                        f"{len(cg)} triples, the solution multiset has {want_n} solutions binding ?y")
         return None
 
     def classify(self, case, msg):
@@ -624,7 +631,11 @@ def dataset_for(gi, tier):
 
 GRAPH_FORMS = ["GRAPH ?g {P}", "GRAPH :g1 {P}", "{P} GRAPH ?g {Q}", "GRAPH ?g {P} GRAPH ?h {Q}", "GRAPH ?x {P}",
                "GRAPH ?g {P} {Q}", "{Q} OPTIONAL { GRAPH ?g {P} }", "GRAPH :nowhere {P}", "GRAPH ?g { {P} UNION {Q} }",
-               "{Q} MINUS { GRAPH ?g {P} }", "GRAPH ?g {P} FILTER(?g != :g1)"]
+               "{Q} MINUS { GRAPH ?g {P} }", "GRAPH ?g {P} FILTER(?g != :g1)",
+               # a UNION inside GRAPH whose first branch has a solution before the second branch is evaluated (ground
+               # triple, with and without BIND): both branches are matched against the named graph
+               "GRAPH :g1 { {P} UNION {Q} }", "GRAPH :g1 { { :a :p :b BIND(1 AS ?t) } UNION {Q} }",
+               "GRAPH ?g { { :a :p :b } UNION {Q} }"]
 
 
 class GraphPatterns(Suite):
@@ -691,8 +702,17 @@ class GraphPatterns(Suite):
         elif f == 9:
             R = gsols(P, "?g")
             exp = [a for a in ref_eval(Q, D) if not any(compatible(a, b) and set(a) & set(b) for b in R)]
-        else:
+        elif f == 10:
             exp = [m for m in gsols(P, "?g") if m["?g"] != URIRef("urn:x:g1")]
+        elif f == 11:
+            exp = gsols(P, ":g1") + gsols(Q, ":g1")
+        elif f == 12:
+            from rdflib import Literal
+            ground = (URIRef("urn:x:a"), URIRef("urn:x:p"), URIRef("urn:x:b"))
+            exp = ([{"?t": Literal(1)}] if ground in named.get("urn:x:g1", []) else []) + gsols(Q, ":g1")
+        else:
+            ground = (URIRef("urn:x:a"), URIRef("urn:x:p"), URIRef("urn:x:b"))
+            exp = [{"?g": URIRef(name)} for name, ts in named.items() if ground in ts] + gsols(Q, "?g")
         try:
             got = ms_rdflib(ds.query(PFX + "SELECT * WHERE { " + text + " }"))
         except Exception as e:  # noqa
